@@ -164,16 +164,20 @@ class World2:
             r = s.reader
             if r is None:
                 continue
+            lost = None
             if kind == "eof":
                 r.feed_eof()
             elif kind == "reset":
-                r.set_exception(ConnectionResetError("reset by peer"))
+                lost = ConnectionResetError("reset by peer")
             elif kind == "oserr":
-                r.set_exception(OSError(113, "No route to host"))
+                lost = OSError(113, "No route to host")
             elif kind == "timeout":
-                r.set_exception(TimeoutError("timed out"))
+                lost = TimeoutError("timed out")
+            if lost is not None:
+                r.set_exception(lost)
             if s.writer is not None:
-                s.writer.fail(ConnectionResetError)
+                # connection_lost(exc): reads, drain() and wait_closed() of this connection all report the error
+                s.writer.fail(ConnectionResetError, lost=lost)
         self.run()
 
     def send(self, x, msg):
